@@ -1,4 +1,5 @@
 import Pm.Dev2Login2
+import Pm.ToBufProof
 /-! # C10 — one conversation at a time per device, and login comes first
 
 "On each device connection powerman runs scripts strictly one after another in request order: it never sends bytes
@@ -247,17 +248,36 @@ example :
 
 /-! ## 4. the device output buffer -/
 
-/-- **`_handle_ready_device` and the buffer**: afterwards the buffer is `kept ++ reply`, where `kept` is the whole
+/-- **`_handle_ready_device` and the buffer**: afterwards the buffer is `clipTo (kept ++ reply)`, where `kept` is the whole
     buffer as it was, or what stays of it behind the non-empty prefix `wr` that a successful `write` took (the kernel
     takes as much as it has room for: `wr ++ kept` is the buffer as it was, in order, nothing lost or repeated), and
     `reply` is empty or the telnet option replies to the bytes just read (tcp devices only; `readOf c.dev bs` is the
-    prefix of what the kernel had, `bs`, that the input buffer asked for: `C09_read_is_prefix`). -/
-theorem C10_handle_ready_buffer (c : CS) :
+    prefix of what the kernel had, `bs`, that the input buffer asked for: `C09_read_is_prefix`).
+    Changed when the capacity of `dev->to` was modelled (the statement read `= kept ++ reply`): the buffer holds 65536 bytes,
+    `clipTo` keeps the last 65536 — a device that floods `IAC DO x` and does not read makes the oldest queued bytes give way.
+    The hypothesis is the capacity invariant (`C09_device_out_capacity`; every reachable buffer satisfies it).  Below the
+    limit the old statement holds: `C10_handle_ready_buffer_below`. -/
+theorem C10_handle_ready_buffer (c : CS) (hcap : c.dev.toBuf.length ≤ 65536) :
+    ∃ kept reply, (handleReady c).1.dev.toBuf = clipTo (kept ++ reply) ∧
+      (kept = c.dev.toBuf ∨ (∃ wr, wr ≠ [] ∧ wr ++ kept = c.dev.toBuf ∧ Sys.write wr true ∈ (handleReady c).1.sys)) ∧
+      (reply = [] ∨ ∃ bs, c.env.read = some (some bs) ∧ c.dev.isPipe = false ∧
+          reply = telnetReplies c.dev.tstate c.dev.tcmd (readOf c.dev bs)) :=
+  handleReady_buf c hcap
+
+/-- the statement as it read before, under the explicit no-overflow hypothesis: what is queued and the replies this call can
+    add (`readyReplies c`: those to the bytes the `read` hands over, on a tcp device) fit the buffer -/
+theorem C10_handle_ready_buffer_below (c : CS) (hfit : c.dev.toBuf.length + (readyReplies c).length ≤ 65536) :
     ∃ kept reply, (handleReady c).1.dev.toBuf = kept ++ reply ∧
       (kept = c.dev.toBuf ∨ (∃ wr, wr ≠ [] ∧ wr ++ kept = c.dev.toBuf ∧ Sys.write wr true ∈ (handleReady c).1.sys)) ∧
       (reply = [] ∨ ∃ bs, c.env.read = some (some bs) ∧ c.dev.isPipe = false ∧
           reply = telnetReplies c.dev.tstate c.dev.tcmd (readOf c.dev bs)) :=
-  handleReady_buf c
+  handleReady_buf_below c hfit
+
+/-- non-vacuity of the capacity hypothesis and of the no-overflow hypothesis (the fresh device's queue is empty, the pass can add
+    the three bytes `IAC WILL SGA`) -/
+example : ({ dev := Ex.fresh, env := Ex.envTelnet, sys := [] } : CS).dev.toBuf.length ≤ 65536 ∧
+    ({ dev := Ex.fresh, env := Ex.envTelnet, sys := [] } : CS).dev.toBuf.length +
+      (readyReplies { dev := Ex.fresh, env := Ex.envTelnet, sys := [] }).length = 3 := by decide +kernel
 
 /-- the telnet replies are `IAC WILL x` / `IAC WONT x` triples and nothing else -/
 theorem C10_telnet_replies_shape (st : Nat) (cmd : UInt8) (bs : Bytes) :
@@ -265,10 +285,18 @@ theorem C10_telnet_replies_shape (st : Nat) (cmd : UInt8) (bs : Bytes) :
       ∀ ch ∈ chunks, ∃ b, ch = [255, 251, b] ∨ ch = [255, 252, b] :=
   telnetReplies_shape st cmd bs
 
-/-- `telnetReplies` is the reply part of `telnetFilter` -/
+/-- `telnetReplies` is the reply part of `telnetFilter`: queued behind what is queued, the last 65536 bytes kept (changed
+    with the capacity of `dev->to`: the statement read `d.toBuf ++ …`; each answer is one overwriting `cbuf_write` of 3 bytes,
+    and a sequence of such writes leaves what one write of the concatenation leaves: `clipTo_clipTo_append`) -/
 theorem C10_telnet_filter_buffer (d : Dev) (bs : Bytes) :
-    (telnetFilter d bs).toBuf = d.toBuf ++ telnetReplies d.tstate d.tcmd bs :=
+    (telnetFilter d bs).toBuf = clipTo (d.toBuf ++ telnetReplies d.tstate d.tcmd bs) :=
   telnetFilter_toBuf d bs
+
+/-- below the limit the replies are appended (the statement as it read before) -/
+theorem C10_telnet_filter_buffer_below (d : Dev) (bs : Bytes)
+    (hfit : (d.toBuf ++ telnetReplies d.tstate d.tcmd bs).length ≤ 65536) :
+    (telnetFilter d bs).toBuf = d.toBuf ++ telnetReplies d.tstate d.tcmd bs := by
+  rw [telnetFilter_toBuf, clipTo_of_le _ hfit]
 
 example : telnetReplies 0 0 [255, 253, 3, 65, 255, 253, 1] = [255, 251, 3, 255, 252, 1] := by decide
 
@@ -276,15 +304,37 @@ example : telnetReplies 0 0 [255, 253, 3, 65, 255, 253, 1] = [255, 251, 3, 255, 
     payloads of the run's `send` statements in order (and neither the connection state nor the retry counter moved),
     or the run took its error branch on the CONNECTED device: `_reconnect` went through `_disconnect`, which flushes
     both buffers — the buffer is empty, nothing was sent after the flush (the error branch leaves the loop), and the
-    flush is visible: the device is no longer CONNECTED or one more connect attempt has been counted. -/
-theorem C10_process_action_buffer (fuel : Nat) (c : CS) (o : Oracle) (out : List Out) (tmo : Option Time) :
+    flush is visible: the device is no longer CONNECTED or one more connect attempt has been counted.
+    Changed when the capacity of `dev->to` was modelled (the statement read `c.dev.toBuf ++ …`): `clipTo` keeps the last 65536
+    bytes — a `send` against a full buffer overwrites the oldest queued bytes (`cbuf_write`, overwrite mode; `_process_send`
+    logs "buffer overrun" and goes on).  The hypothesis is the capacity invariant (`C09_device_out_capacity`).  Below the
+    limit: `C10_process_action_buffer_below`. -/
+theorem C10_process_action_buffer (fuel : Nat) (c : CS) (o : Oracle) (out : List Out) (tmo : Option Time)
+    (hcap : c.dev.toBuf.length ≤ 65536) :
+    ((processActionF fuel c o out tmo).1.dev.toBuf = clipTo (c.dev.toBuf ++ (passSents fuel c o out tmo).flatten) ∧
+       (processActionF fuel c o out tmo).1.dev.conn = c.dev.conn ∧
+       (processActionF fuel c o out tmo).1.dev.retryCount = c.dev.retryCount) ∨
+    ((processActionF fuel c o out tmo).1.dev.toBuf = [] ∧ c.dev.conn = 2 ∧
+       ((processActionF fuel c o out tmo).1.dev.conn ≠ 2 ∨
+        (processActionF fuel c o out tmo).1.dev.retryCount = c.dev.retryCount + 1)) :=
+  processActionF_buf fuel c o out tmo hcap
+
+/-- `C10_process_action_buffer` as it read before the capacity of `dev->to` was modelled, under the explicit no-overflow
+    hypothesis: what is queued and what the run sends fit the buffer -/
+theorem C10_process_action_buffer_below (fuel : Nat) (c : CS) (o : Oracle) (out : List Out) (tmo : Option Time)
+    (hfit : c.dev.toBuf.length + (passSents fuel c o out tmo).flatten.length ≤ 65536) :
     ((processActionF fuel c o out tmo).1.dev.toBuf = c.dev.toBuf ++ (passSents fuel c o out tmo).flatten ∧
        (processActionF fuel c o out tmo).1.dev.conn = c.dev.conn ∧
        (processActionF fuel c o out tmo).1.dev.retryCount = c.dev.retryCount) ∨
     ((processActionF fuel c o out tmo).1.dev.toBuf = [] ∧ c.dev.conn = 2 ∧
        ((processActionF fuel c o out tmo).1.dev.conn ≠ 2 ∨
         (processActionF fuel c o out tmo).1.dev.retryCount = c.dev.retryCount + 1)) :=
-  processActionF_buf fuel c o out tmo
+  processActionF_buf_below fuel c o out tmo hfit
+
+/-- non-vacuity of the no-overflow hypothesis: the run on the fresh device sends the login's one byte into an empty queue -/
+example :
+    let c : CS := { dev := Ex.fresh, env := Ex.env0, sys := [] }
+    c.dev.toBuf.length + (passSents 10 c ⟨[]⟩ [] none).flatten.length = 1 := by decide +kernel
 
 /-- `passSents` is what the run sent -/
 theorem C10_passSents (fuel : Nat) (c : CS) (o : Oracle) (out : List Out) (tmo : Option Time) :
@@ -297,8 +347,29 @@ theorem C10_passSents (fuel : Nat) (c : CS) (o : Oracle) (out : List Out) (tmo :
     `_process_action` — just those payloads; or — `_process_action` took its error branch on the connected device —
     empty.  Telnet replies and `send` payloads are therefore the only bytes ever appended, the replies go in before
     anything this pass sends, and a script's bytes are never interleaved with another script's
-    (`C10_run_sends_what_heads_say`). -/
-theorem C10_post_poll_buffer (d : Dev) (env : Env) (o : Oracle) :
+    (`C10_run_sends_what_heads_say`).
+    Changed when the capacity of `dev->to` was modelled (the statement read `= kept ++ reply ++ sentBytes …` and `= sentBytes …`):
+    `clipTo` keeps the last 65536 bytes of that; what is lost beyond the capacity is always the *oldest* of what was queued, so
+    the order statement stands.  The hypothesis is the capacity invariant (`C09_device_out_capacity`).  Below the limit the
+    old statement holds: `C10_post_poll_buffer_below`. -/
+theorem C10_post_poll_buffer (d : Dev) (env : Env) (o : Oracle) (hcap : d.toBuf.length ≤ 65536) :
+    ∃ kept reply,
+      (kept = d.toBuf ∨ (∃ wr, wr ≠ [] ∧ wr ++ kept = d.toBuf ∧ Sys.write wr true ∈ (postPollReady d env).1.sys)) ∧
+      (reply = [] ∨ ∃ bs, env.read = some (some bs) ∧ d.isPipe = false ∧
+        reply = telnetReplies d.tstate d.tcmd (readOf d bs)) ∧
+      ((postPoll d env o).1.dev.toBuf = clipTo (kept ++ reply ++ sentBytes (postPoll d env o).2.2.1) ∨
+       ((postPoll d env o).1.dev.toBuf = clipTo (sentBytes (postPoll d env o).2.2.1) ∧
+          (postPollReady d env).2 = true ∧ (postPollReady d env).1.dev.conn ≠ 0) ∨
+       ((postPoll d env o).1.dev.toBuf = [] ∧ (postPollPre d env).1.dev.conn = 2 ∧
+          ((postPoll d env o).1.dev.conn ≠ 2 ∨
+           (postPoll d env o).1.dev.retryCount = (postPollPre d env).1.dev.retryCount + 1))) :=
+  postPoll_buf d env o hcap
+
+/-- `C10_post_poll_buffer` as it read before, under the explicit no-overflow hypothesis: what is queued, the telnet replies this
+    pass can add and what this pass sends fit the buffer together -/
+theorem C10_post_poll_buffer_below (d : Dev) (env : Env) (o : Oracle)
+    (hfit : d.toBuf.length + (readyReplies { dev := d, env := env, sys := [] }).length +
+      (sentBytes (postPoll d env o).2.2.1).length ≤ 65536) :
     ∃ kept reply,
       (kept = d.toBuf ∨ (∃ wr, wr ≠ [] ∧ wr ++ kept = d.toBuf ∧ Sys.write wr true ∈ (postPollReady d env).1.sys)) ∧
       (reply = [] ∨ ∃ bs, env.read = some (some bs) ∧ d.isPipe = false ∧
@@ -309,7 +380,11 @@ theorem C10_post_poll_buffer (d : Dev) (env : Env) (o : Oracle) :
        ((postPoll d env o).1.dev.toBuf = [] ∧ (postPollPre d env).1.dev.conn = 2 ∧
           ((postPoll d env o).1.dev.conn ≠ 2 ∨
            (postPoll d env o).1.dev.retryCount = (postPollPre d env).1.dev.retryCount + 1))) :=
-  postPoll_buf d env o
+  postPoll_buf_below d env o hfit
+
+/-- non-vacuity of the no-overflow hypothesis (4 bytes in all) -/
+example : Ex.fresh.toBuf.length + (readyReplies { dev := Ex.fresh, env := Ex.envTelnet, sys := [] }).length +
+    (sentBytes (postPoll Ex.fresh Ex.envTelnet ⟨[]⟩).2.2.1).length = 4 := by decide +kernel
 
 /-- `postPollReady`, `postPollPre` are the first stages of `postPoll` (descriptor events; then reconnect and ping) -/
 theorem C10_post_poll_stages (d : Dev) (env : Env) (o : Oracle) :
